@@ -560,18 +560,29 @@ def check_property(pid, tier, res):
 
 def write_evidence(pid, tier, res, relevant, viol, known, wall):
     os.makedirs(EVID, exist_ok=True)
-    kf_fns = {(u["unit"], e.get("fn")) for (u, e, f) in known}
+    findings = load_findings().get("findings", [])
     obligations = discharged = 0
-    units, samples, assumed = [], [], set()
+    units, samples, assumed, excluded = [], [], set(), []
     for u in relevant:
         if u["status"] == "undecided":
             continue
         fns = u.get("functions", [])
-        n = len([f for f in fns if (u["unit"], f["fn"].split("::")[-1]) not in kf_fns and (u["unit"], f["fn"]) not in kf_fns])
-        ok = len([f for f in fns if f["ok"] and (u["unit"], f["fn"]) not in kf_fns])
-        obligations += max(u.get("verified", 0) + u.get("n_errors", 0) - len({fn for (un, fn) in kf_fns if un == u["unit"]}), 0)
+        # functions whose every failing obligation is a listed finding (of whatever property): excluded from both counts
+        by_fn = {}
+        for e in u["errors"]:
+            if e.get("kind") != "failed":
+                continue
+            props = e.get("properties") or [e.get("property")]
+            listed = any(finding_matches(f, u, dict(e, property=pp)) for f in findings for pp in props)
+            by_fn.setdefault(e.get("fn"), []).append(listed)
+        kf = {fn for fn, ls in by_fn.items() if ls and all(ls)}
+        n_failed_fns = len([f for f in fns if not f["ok"]])
+        n_kf = min(len(kf), n_failed_fns)
+        obligations += max(u.get("verified", 0) + u.get("n_errors", 0) - n_kf, 0)
         discharged += u.get("verified", 0)
-        units.append({"unit": u["unit"], "functions_under_contract": len(fns), "verified": u.get("verified", 0), "errors": u.get("n_errors", 0), "smt_ms": u.get("smt_ms", 0), "tagged_clauses": u.get("tag_counts", {}).get(pid, 0), "call_sites": u.get("meta", {}).get("sites", 0)})
+        excluded += [{"unit": u["unit"], "fn": fn} for fn in sorted(kf)]
+        units.append({"unit": u["unit"], "functions_under_contract": len(fns), "verified": u.get("verified", 0), "errors": u.get("n_errors", 0), "excluded_known_finding_functions": n_kf,
+                      "smt_ms": u.get("smt_ms", 0), "tagged_clauses": u.get("tag_counts", {}).get(pid, 0), "call_sites": u.get("meta", {}).get("sites", 0)})
         assumed.update(u.get("assumed", []))
     for u in relevant[:6]:
         if u.get("woven") and os.path.exists(u["woven"]):
@@ -588,6 +599,7 @@ def write_evidence(pid, tier, res, relevant, viol, known, wall):
             "explanation": "obligations = Verus verification conditions (one per function: handler, environment function, shim, lemma) of every woven unit that carries a clause tagged with this property; functions whose only failing obligations are listed known findings are excluded from both counts and listed under known_findings",
             "units": units, "samples": samples,
             "known_findings": [{"unit": u["unit"], "fn": e.get("fn"), "site": e.get("site"), "clause": e.get("clause"), "what": f.get("what")} for (u, e, f) in known],
+            "functions_excluded_because_of_listed_findings": excluded,
             "back_end": "Verus -> Z3 (SMT)", "solver_ms_total": sum(x["smt_ms"] for x in units),
             "pipeline_cached": res.get("cached", False),
         },
